@@ -8,6 +8,7 @@ Spec:  Emboss/Spec/Bounds.lean (γ, evaluation over ℤ/Bool, physical leaf rang
 import Emboss.Lemmas.BoundsGate
 import Emboss.Lemmas.BoundsTight
 import Emboss.Lemmas.BoundsSize
+import Emboss.Lemmas.BoundsTotal
 namespace Emboss.Bounds
 open ExtInt
 
@@ -171,10 +172,10 @@ satisfy it (`C05_inv_leaves`), hence every annotation `abs` attaches to a subexp
 of an expression without an infinite `$upper_bound`/`$lower_bound` (`FiniteBounds`,
 decidable) passes `_assert_integer_constraints` (`C05_inv_preserved`).  The hypothesis
 is necessary (`C05_inv_preserved_counterexample`, `C05_crash_counterexample` = open
-findings).  Not stated: "`abs e ≠ none` for every well-typed `e`" — the integer transfer
-functions never raise (above), but a comparison raises `KeyError` through
-`ir_util.constant_value` (`C05_crash_counterexample`, third conjunct: open finding), and
-the model has no type checker to exclude ill-typed operands.
+findings).  Totality: `abs` returns on the whole arithmetic fragment (`C05_no_crash_arith`).  Not stated:
+"`abs e ≠ none` for every well-typed `e`" with comparisons — a comparison raises `KeyError`
+through `ir_util.constant_value` (`C05_crash_counterexample`, third conjunct: open finding),
+and the model has no type checker to exclude ill-typed comparison operands.
 -/
 
 /-- **Every transfer function preserves the invariant and does not raise.**
@@ -243,6 +244,29 @@ example :
       (.max [.choice (.bleaf 0) (.ileaf 1 .sint (some 9)) (.const 15), .const 3])
     GivenOk e = true ∧ FiniteBounds e = true ∧
     abs e = some (.int ⟨.fin 237, .fin 12550845, .fin 1, .fin 0⟩) := by
+  decide +kernel
+
+/-- **The analysis never raises on the arithmetic fragment.**  For every integer expression
+over literals, integer leaves of any kind/size, `$static_size_in_bits`, `$logical_value`,
+references to virtual fields, `+ - *`, `$max`, `$upper_bound`, `$lower_bound` and `?:` on a
+boolean field or literal (`ArithOnly`), without an infinite `$upper_bound`/`$lower_bound`
+(`FiniteBounds`): `compute_constraints_of_expression` returns — no assert fails, no
+`int("infinity")`, no `"infinity" % n` — an integer annotation satisfying the invariant.
+(Comparisons are outside the fragment: their annotation calls `ir_util.constant_value`,
+which raises `KeyError` — `C05_crash_counterexample`.) -/
+theorem C05_no_crash_arith (e : Expr) (h : ArithOnly e = true) (hg : GivenOk e = true)
+    (hf : FiniteBounds e = true) : ∃ a, abs e = some (.int a) ∧ InvOk a = true := by
+  obtain ⟨a, h1, h2⟩ := total_aux e h hg hf
+  exact ⟨a, h1, InvOk_of_InvS h2⟩
+
+/-- non-vacuity, and necessity of `FiniteBounds`: the F8 input is in the fragment -/
+example :
+    let e : Expr := .choice (.bleaf 0)
+      (.bin .sub (.vref (.bin .mul (.ileaf 0 .sint (some 16)) (.const (-6)))) (.upper (.ileaf 2 .bcd (some 12))))
+      (.max [.given 3 ⟨.fin 4, .posInf, .fin 8, .fin 4⟩, .lower (.ileaf 4 .uint (some 3))])
+    ArithOnly e = true ∧ GivenOk e = true ∧ FiniteBounds e = true ∧
+    ArithOnly (.bin .mul (.upper (.ileaf 0 .uint none)) (.const 2)) = true ∧
+    FiniteBounds (.bin .mul (.upper (.ileaf 0 .uint none)) (.const 2)) = false := by
   decide +kernel
 
 /-- **`invPy` alone is not inductive**: an annotation without finite bounds passes the
